@@ -280,13 +280,13 @@ def replay(check, case):
 def main(ctx):
     nt_variant("euclid")
     jobs = []
-    ms = list(range(1, ctx.pick(250, 1200) + 1))
+    ms = list(range(1, ctx.pick(600, 1200) + 1))
     for variant in ("native", "euclid"):
         for ch in common.chunks(ms, ctx.jobs):
             jobs.append((shard_inv, "inverse-all-small", (variant, ch)))
         for ch in common.chunks(big_moduli(), 4):
             jobs.append((shard_inv_big, "inverse-production", (variant, ch)))
-    primes = [p for p in catalog.primes_upto(ctx.pick(2000, 12000)) if p > 2]
+    primes = [p for p in catalog.primes_upto(ctx.pick(5000, 12000)) if p > 2]
     # interleave so that shards have similar cost
     for i in range(2 * ctx.jobs):
         ch = primes[i:: 2 * ctx.jobs]
@@ -297,7 +297,7 @@ def main(ctx):
          c.curve.cofactor() == 1] + BIG_1MOD8
     for ch in common.chunks(bigp, ctx.jobs):
         jobs.append((shard_sqrt_big, "sqrt-production", ch))
-    odd = list(range(3, ctx.pick(1501, 6001) + 1, 2))
+    odd = list(range(3, ctx.pick(3001, 6001) + 1, 2))
     for i in range(2 * ctx.jobs):
         ch = odd[i:: 2 * ctx.jobs]
         if ch:
@@ -314,7 +314,7 @@ def main(ctx):
         "class mod 8, SquareRootError iff Euler's criterion says non-residue; "
         "jacobi: every odd n in [3,%d] x a in [-n,2n] against the product of "
         "Legendre symbols over a trial-division factorisation. Non-trivial = "
-        "a not in {0,1} mod m." % (ms[-1], ctx.pick(2000, 12000), odd[-1]))
+        "a not in {0,1} mod m." % (ms[-1], ctx.pick(5000, 12000), odd[-1]))
     return rep
 
 
